@@ -8,6 +8,7 @@ import (
 	"fmt"
 	"os"
 	"path/filepath"
+	"regexp"
 	"runtime"
 	"sort"
 	"strings"
@@ -84,6 +85,8 @@ func resolveCall(prog *mrogen.Program, callPath string) (*mrogen.Call, *mrogen.S
 	return call, prog.Stage(call.Callee)
 }
 
+var jobDirRe = regexp.MustCompile(`^(split|join|chnk\d+)(-u[0-9a-f]+)?$`)
+
 type killReport struct {
 	Paths []string `json:"paths"`
 	Count uint     `json:"count"`
@@ -150,7 +153,7 @@ func filesCase(t *rapid.T, root string, prog *mrogen.Program) {
 		return
 	}
 	defer sim.Close()
-	rc := &runCase{prog: prog, src: src, model: model, sim: sim}
+	rc := &runCase{prog: prog, src: src, model: model, sim: sim, baseG: runtime.NumGoroutine()}
 	ix := indexModel(model)
 	ix.trueDeps = refsem.TrueDeps(prog, &opts.StageOpts, model)
 
@@ -186,7 +189,47 @@ func filesCase(t *rapid.T, root string, prog *mrogen.Program) {
 			time.Sleep(time.Duration(n) * 150 * time.Microsecond)
 		}
 	}
+	// optionally one job fails after it wrote its files, mrp gives up and is
+	// restarted: the attempt's directory (files, tmp) has to go with the reset
+	var failedJob *simrun.Job
+	if faultAt := rapid.IntRange(-4, 12).Draw(t, "faultAt"); faultAt >= 0 && only("C14") {
+		n := 0
+		rc.finish = func(j *simrun.Job) bool {
+			n++
+			if failedJob != nil || n <= faultAt {
+				return false
+			}
+			outs, err := sim.Compute(j)
+			if err == nil {
+				_, err = led.Materialise(j, prog, outs)
+			}
+			if err == nil {
+				err = rc.sim.Fail(j, "errors", "exit status 1")
+			}
+			if err != nil {
+				t.Fatalf("INFRA: %v", err)
+			}
+			failedJob = j
+			rc.logf("FAULT: %s wrote its files, then failed", j)
+			return true
+		}
+	}
 	st := rc.drive(t, ix)
+	if failedJob != nil {
+		// whatever goes wrong after the reset of the failed attempt is part
+		// of the C14 scenario (restart between partial and final cleanup)
+		propOverride = "C14"
+		defer func() { propOverride = "" }()
+		if st != core.Failed {
+			fail(t, "C06", "success-despite-failure", "state %q\n%s", st, rc.describe())
+		}
+		rc.sim.PS.Unlock()
+		rc.logf("mrp exits; restart")
+		rc.finish = nil
+		rc.reattach(t, "C14", nil)
+		sim = rc.sim
+		st = rc.drive(t, ix)
+	}
 	if matErr != nil {
 		t.Fatalf("INFRA: writing stage files: %v", matErr)
 	}
@@ -265,11 +308,18 @@ func filesCase(t *rapid.T, root string, prog *mrogen.Program) {
 	// --- C14
 	removed, survivors, mustGo := 0, 0, 0
 	if only("C14") && mode != core.VdrDisable {
-		for _, j := range sim.Jobs {
-			if _, err := os.Lstat(filepath.Join(j.MdPath, "tmp")); err == nil {
-				if ents, _ := os.ReadDir(filepath.Join(j.MdPath, "tmp")); len(ents) > 0 {
-					fail(t, "C14", "tmp-dir-survives", "vdr mode %s: the temporary directory of job %s still holds %d entries at completion\n%s", mode, j, len(ents), rc.describe())
-				}
+		filepath.Walk(psDir, func(p string, fi os.FileInfo, err error) error {
+			if err != nil || !fi.IsDir() || fi.Name() != "tmp" || !jobDirRe.MatchString(filepath.Base(filepath.Dir(p))) {
+				return nil
+			}
+			if ents, _ := os.ReadDir(p); len(ents) > 0 {
+				fail(t, "C14", "tmp-dir-survives", "vdr mode %s: the temporary directory %s of a job still holds %d entries at completion\n%s", mode, p, len(ents), rc.describe())
+			}
+			return filepath.SkipDir
+		})
+		for _, e := range led.Order {
+			if e.Written && e.Job == failedJob && e.Exists() {
+				fail(t, "C14", "file-of-reset-attempt-survives", "vdr mode %s: %s was written by the attempt of %s that failed and was reset on restart, and is still there at completion\n%s", mode, e.Path, e.Job, rc.describe())
 			}
 		}
 		for _, e := range led.Order {
@@ -343,7 +393,7 @@ func filesCase(t *rapid.T, root string, prog *mrogen.Program) {
 			}
 		}
 		for _, e := range led.Order {
-			if e.Written && !e.Exists() && !covered[e.Path] {
+			if e.Written && !e.Exists() && !covered[e.Path] && e.Job != failedJob {
 				fail(t, "C14", "removed-but-not-reported", "vdr mode %s: %s (written by %s) is gone but no _vdrkill report lists it or a directory above it\n%s", mode, e.Path, e.Job, rc.describe())
 			}
 		}
@@ -356,7 +406,7 @@ func filesCase(t *rapid.T, root string, prog *mrogen.Program) {
 			var n uint
 			var size uint64
 			for _, e := range led.Inside(forkDir) {
-				if e.Written && !e.Exists() {
+				if e.Written && !e.Exists() && e.Job != failedJob {
 					n++
 					size += uint64(e.Size)
 				}
@@ -421,6 +471,9 @@ func filesCase(t *rapid.T, root string, prog *mrogen.Program) {
 		}
 		if len(kept) > 0 && removed > 0 {
 			c = append(c, "kept-and-removed")
+		}
+		if failedJob != nil {
+			c = append(c, "failed-attempt-reset")
 		}
 		stats.Case("C14", mode != core.VdrDisable && removed > 0 && len(kept) > 0, digest, c, sample)
 	}
